@@ -625,6 +625,16 @@ func buildReplay(L *Loaded, o *Oblig, repo string) *Replay {
 			rp.Run = map[string]interface{}{"verdict": "not-run", "reason": "postcondition uses spec-only constructs"}
 			return rp
 		}
+	} else if strings.HasPrefix(o.Class, "own") && fn.Signature.Recv() != nil {
+		// decode, snapshot the result, scribble over every input buffer, compare
+		g.imports["encoding/json"] = "json"
+		var scribble []string
+		for i, p := range fn.Params {
+			if isByteSlice(p.Type()) {
+				scribble = append(scribble, fmt.Sprintf("for k := range %s { %s[k] ^= 0xff }", argNames[i], argNames[i]))
+			}
+		}
+		check = fmt.Sprintf("before, _ := json.Marshal(%s)\n\t\t%s\n\t\tafter, _ := json.Marshal(%s)\n\t\tif string(before) != string(after) { done <- \"RESULT CHANGED when the input buffer was overwritten: \" + string(before) + \" -> \" + string(after); return }", argNames[0], strings.Join(scribble, "; "), argNames[0])
 	} else if !strings.HasPrefix(o.Class, "safety") && !strings.HasPrefix(o.Class, "term") {
 		rp.Run = map[string]interface{}{"verdict": "not-run", "reason": "no dynamic oracle for class " + o.Class}
 		return rp
